@@ -101,7 +101,7 @@ theorem parse_marshal (o : Options) (g : GenFull) (h : genFull o f t = .ok g)
   obtain ⟨c, hc, ht, hv, hname, _⟩ := C04.string_primary o ha e hd
   have hm : g.marshal e = c.name := by
     rw [hname]; subst hg; rfl
-  have hcase : caseOf ts (Value.ofConst c) ∈ g.base.cases := by
+  have hcase : caseOf ts (sortedValues f t.name).head? (Value.ofConst c) ∈ g.base.cases := by
     subst hg
     exact List.mem_map.mpr ⟨_, mem_sortedValues.mpr ⟨c, hc, ht, rfl⟩, rfl⟩
   have := parse_of_case g.base hn _ hcase (Dyn.ofString c.name) (by simp [caseOf, Value.ofConst])
@@ -144,8 +144,8 @@ theorem reject_json (g : GenFull) (doc : JDoc)
   cases doc with
   | str s => exact stringTry_none g s h
   | num i =>
-    have hu := numericTry_none g false i h
-    have hs := numericTry_none g true i h
+    have hu := numericTry_none g .json false i h
+    have hs := numericTry_none g .json true i h
     simp [GenFull.unmarshalJSON, hu, hs]
   | other => rfl
 
@@ -163,10 +163,10 @@ theorem reject_yaml (g : GenFull) (text : String)
   unfold GenFull.unmarshalYAML
   rw [stringTry_none g text h1]
   simp only []
-  have hU : ∀ x, parseUintLit text = some x → numericTry {} g false x = none :=
-    fun x hp => numericTry_none g false x (h2 x (Or.inl hp))
-  have hS : ∀ x, parseIntLit text = some x → numericTry {} g true x = none :=
-    fun x hp => numericTry_none g true x (h2 x (Or.inr hp))
+  have hU : ∀ x, parseUintLit text = some x → numericTry {} g .yaml false x = none :=
+    fun x hp => numericTry_none g .yaml false x (h2 x (Or.inl hp))
+  have hS : ∀ x, parseIntLit text = some x → numericTry {} g .yaml true x = none :=
+    fun x hp => numericTry_none g .yaml true x (h2 x (Or.inr hp))
   cases hp1 : parseUintLit text with
   | none =>
     cases hp2 : parseIntLit text with
@@ -177,12 +177,58 @@ theorem reject_yaml (g : GenFull) (text : String)
     | none => simp [hU x hp1]
     | some y => simp [hU x hp1, hS y hp2]
 
+/-! ## rejection, sharpened: what a block does not range over cannot decode
+
+A trait whose type brings its own unmarshaler for a codec is NOT in that codec's integer block
+(`GetParsableUnderlyingInt64For<C>` excludes it), so its numerals are not decoded there; a trait
+whose type brings none is in the integer block and NOT in the native one. -/
+
+/-- JSON: a number is rejected by the string / integer branches unless it is a constant of a
+parsable trait whose type has NO `UnmarshalJSON` of its own. In particular the numeral of a
+constant of a trait type that decodes itself from JSON (an enum generated with `-json`) is
+rejected there. -/
+theorem reject_json_num_own (g : GenFull) (i : Int)
+    (h : ∀ td ∈ g.traits, td.parsable = true → td.fam.implements .json = false →
+      g.base.parse ⟨td.ty, .int i⟩ = none) :
+    g.unmarshalJSON {} (.num i) = none := by
+  have hl : ∀ sg, numericTry {} g .json sg i = none := fun sg =>
+    numericTry_none_of_list g .json sg i (fun t ht => by
+      obtain ⟨h1, h2, _, h4⟩ := mem_numericTraits.mp ht
+      exact h t h1 h2 h4)
+  simp [GenFull.unmarshalJSON, hl]
+
+/-- YAML: a scalar is rejected by the string / integer branches unless its text is a string
+constant of the switch, or a decimal numeral denoting a constant of a parsable trait whose type
+has NO `UnmarshalYAML` of its own. -/
+theorem reject_yaml_own (g : GenFull) (text : String)
+    (h1 : ∀ ty, g.base.parse ⟨ty, .str text⟩ = none)
+    (h2 : ∀ x, parseUintLit text = some x ∨ parseIntLit text = some x →
+      ∀ td ∈ g.traits, td.parsable = true → td.fam.implements .yaml = false →
+        g.base.parse ⟨td.ty, .int x⟩ = none) :
+    g.unmarshalYAML {} text = none := by
+  unfold GenFull.unmarshalYAML
+  rw [stringTry_none g text h1]
+  simp only []
+  have hl : ∀ sg x, parseUintLit text = some x ∨ parseIntLit text = some x → numericTry {} g .yaml sg x = none :=
+    fun sg x hp => numericTry_none_of_list g .yaml sg x (fun t ht => by
+      obtain ⟨a, b, _, d⟩ := mem_numericTraits.mp ht
+      exact h2 x hp t a b d)
+  cases hp1 : parseUintLit text with
+  | none =>
+    cases hp2 : parseIntLit text with
+    | none => simp
+    | some y => simp [hl true y (Or.inr hp2)]
+  | some x =>
+    cases hp2 : parseIntLit text with
+    | none => simp [hl false x (Or.inl hp1)]
+    | some y => simp [hl false x (Or.inl hp1), hl true y (Or.inr hp2)]
+
 /-! ## the whole decoders: with the native block -/
 
-/-- without a parsable self-unmarshalling trait the native block does nothing: the theorems
-above are then about the whole generated `UnmarshalJSON` / `UnmarshalYAML` -/
-theorem nativeTry_none_of_no_self (g : GenFull) (dec : String → Option Int)
-    (h : ∀ td ∈ g.traits, td.parsable = true → ∀ inner, td.fam ≠ .self inner) : g.nativeTry dec = none := by
+/-- without a parsable trait whose type brings its own unmarshaler for codec `c` the native block
+of that codec does nothing: the theorems above are then about the whole generated decoder -/
+theorem nativeTry_none_of_no_self (g : GenFull) (c : Codec) (dec : String → Option Int)
+    (h : ∀ td ∈ g.traits, td.parsable = true → td.fam.implements c = false) : g.nativeTry c dec = none := by
   unfold GenFull.nativeTry
   apply firstSome_none
   intro x hx
@@ -190,49 +236,83 @@ theorem nativeTry_none_of_no_self (g : GenFull) (dec : String → Option Int)
   have hm := List.mem_filter.mp htd
   have := h td hm.1 (by simpa using hm.2)
   cases hf : td.fam with
-  | self inner => exact absurd hf (this inner)
+  | self inner sg b m =>
+    rw [hf] at this
+    simp only [Family.implements] at this
+    simp [this]
   | ustr => rfl
   | nstr => rfl
   | sint b => rfl
   | uint b => rfl
   | none => rfl
 
-theorem full_eq_of_no_self (g : GenFull) (envJ : String → JDoc → Option Int) (envY : String → String → Option Int)
-    (h : ∀ td ∈ g.traits, td.parsable = true → ∀ inner, td.fam ≠ .self inner) (doc : JDoc) (text : String) :
+theorem full_eq_of_no_self (g : GenFull) (envJ : String → JDoc → Option Int) (envY envT : String → String → Option Int)
+    (hj : ∀ td ∈ g.traits, td.parsable = true → td.fam.implements .json = false)
+    (hy : ∀ td ∈ g.traits, td.parsable = true → td.fam.implements .yaml = false)
+    (ht : ∀ td ∈ g.traits, td.parsable = true → td.fam.implements .text = false)
+    (doc : JDoc) (text : String) :
     g.unmarshalJSONFull {} envJ doc = g.unmarshalJSON {} doc ∧
-    g.unmarshalYAMLFull {} envY text = g.unmarshalYAML {} text := by
-  unfold GenFull.unmarshalJSONFull GenFull.unmarshalYAMLFull
-  rw [nativeTry_none_of_no_self g _ h, nativeTry_none_of_no_self g _ h]
-  constructor
+    g.unmarshalYAMLFull {} envY text = g.unmarshalYAML {} text ∧
+    g.unmarshalTextFull envT text = g.unmarshalText text := by
+  unfold GenFull.unmarshalJSONFull GenFull.unmarshalYAMLFull GenFull.unmarshalTextFull
+  rw [nativeTry_none_of_no_self g _ _ hj, nativeTry_none_of_no_self g _ _ hy, nativeTry_none_of_no_self g _ _ ht]
+  refine ⟨?_, ?_, ?_⟩
   · cases g.unmarshalJSON {} doc <;> rfl
   · cases g.unmarshalYAML {} text <;> rfl
+  · cases g.unmarshalText text <;> rfl
+
+/-- the text decoder never reaches a native block for a trait type whose `UnmarshalText` has a
+pointer receiver (every generated enum; every hand-written unmarshaler that stores its result):
+`implementsTextUnmarshaler` asks for the VALUE type's method set -/
+theorem text_full_eq_of_ptr (g : GenFull) (envT : String → String → Option Int)
+    (h : ∀ td ∈ g.traits, td.parsable = true → ∀ inner sg b m, td.fam = .self inner sg b m → m.text ≠ .val)
+    (text : String) : g.unmarshalTextFull envT text = g.unmarshalText text := by
+  unfold GenFull.unmarshalTextFull
+  rw [nativeTry_none_of_no_self g .text _ (by
+    intro td htd hp
+    cases hf : td.fam with
+    | self inner sg b m =>
+      have := h td htd hp inner sg b m hf
+      simp only [Family.implements, Methods.implements]
+      cases hm : m.text <;> simp_all
+    | ustr => rfl
+    | nstr => rfl
+    | sint b => rfl
+    | uint b => rfl
+    | none => rfl)]
+  cases g.unmarshalText text <;> rfl
 
 /-- round trip through the whole decoders (the native block comes last and is not reached) -/
 theorem roundtrip_full (o : Options) (g : GenFull) (h : genFull o f t = .ok g)
     (ha : Accepted f t.name k) (e : Int) (hd : Defined f t.name e)
-    (envJ : String → JDoc → Option Int) (envY : String → String → Option Int) :
+    (envJ : String → JDoc → Option Int) (envY envT : String → String → Option Int) :
     g.unmarshalJSONFull {} envJ (.str (g.marshal e)) = some e ∧
-    g.unmarshalYAMLFull {} envY (g.marshal e) = some e := by
-  obtain ⟨hj, _, hy⟩ := roundtrip o g h ha e hd
-  unfold GenFull.unmarshalJSONFull GenFull.unmarshalYAMLFull
-  rw [hj, hy]; exact ⟨rfl, rfl⟩
+    g.unmarshalYAMLFull {} envY (g.marshal e) = some e ∧
+    g.unmarshalTextFull envT (g.marshal e) = some e := by
+  obtain ⟨hj, ht, hy⟩ := roundtrip o g h ha e hd
+  unfold GenFull.unmarshalJSONFull GenFull.unmarshalYAMLFull GenFull.unmarshalTextFull
+  rw [hj, hy, ht]; exact ⟨rfl, rfl, rfl⟩
 
-/-- the native block rejects unless the trait type's OWN decoder reads the document as a value
-whose typed constant is in the `Parse` switch -/
-theorem nativeTry_none (g : GenFull) (dec : String → Option Int)
-    (h : ∀ td ∈ g.traits, td.parsable = true → ∀ inner v, td.fam = .self inner → dec inner = some v →
-      g.base.parse ⟨td.ty, .int v⟩ = none) : g.nativeTry dec = none := by
+/-- the native block of codec `c` rejects unless a trait type's OWN unmarshaler for `c` reads the
+document as a value whose typed constant is in the `Parse` switch -/
+theorem nativeTry_none (g : GenFull) (c : Codec) (dec : String → Option Int)
+    (h : ∀ td ∈ g.traits, td.parsable = true → ∀ inner sg b m v, td.fam = .self inner sg b m →
+      m.implements c = true → dec inner = some v → g.base.parse ⟨td.ty, .int v⟩ = none) : g.nativeTry c dec = none := by
   unfold GenFull.nativeTry
   apply firstSome_none
   intro x hx
   obtain ⟨td, htd, rfl⟩ := List.mem_map.mp hx
   have hm := List.mem_filter.mp htd
   cases hf : td.fam with
-  | self inner =>
+  | self inner sg b m =>
     simp only []
-    cases hdv : dec inner with
-    | none => rfl
-    | some v => exact h td hm.1 (by simpa using hm.2) inner v hf hdv
+    cases hi : m.implements c with
+    | false => rfl
+    | true =>
+      simp only [if_true]
+      cases hdv : dec inner with
+      | none => rfl
+      | some v => exact h td hm.1 (by simpa using hm.2) inner sg b m v hf hi hdv
   | ustr => rfl
   | nstr => rfl
   | sint b => rfl
@@ -240,18 +320,19 @@ theorem nativeTry_none (g : GenFull) (dec : String → Option Int)
   | none => rfl
 
 /-- rejection by the whole JSON / YAML decoders: what the branches above reject is rejected unless
-a self-unmarshalling trait type decodes the document to one of its parsable constants. In
-particular a bare numeral is never decoded THROUGH such a trait (its type reads names). -/
+a trait type that decodes itself (for THAT codec) reads the document as one of its parsable
+constants. In particular a bare numeral is never decoded THROUGH such a trait (an enum reads
+names), and a name is never decoded through a trait type without an unmarshaler for the codec. -/
 theorem reject_full (g : GenFull) (envJ : String → JDoc → Option Int) (envY : String → String → Option Int)
     (doc : JDoc) (text : String)
     (hj : g.unmarshalJSON {} doc = none) (hy : g.unmarshalYAML {} text = none)
-    (hnj : ∀ td ∈ g.traits, td.parsable = true → ∀ inner v, td.fam = .self inner → envJ inner doc = some v →
-      g.base.parse ⟨td.ty, .int v⟩ = none)
-    (hny : ∀ td ∈ g.traits, td.parsable = true → ∀ inner v, td.fam = .self inner → envY inner text = some v →
-      g.base.parse ⟨td.ty, .int v⟩ = none) :
+    (hnj : ∀ td ∈ g.traits, td.parsable = true → ∀ inner sg b m v, td.fam = .self inner sg b m →
+      m.implements .json = true → envJ inner doc = some v → g.base.parse ⟨td.ty, .int v⟩ = none)
+    (hny : ∀ td ∈ g.traits, td.parsable = true → ∀ inner sg b m v, td.fam = .self inner sg b m →
+      m.implements .yaml = true → envY inner text = some v → g.base.parse ⟨td.ty, .int v⟩ = none) :
     g.unmarshalJSONFull {} envJ doc = none ∧ g.unmarshalYAMLFull {} envY text = none := by
   unfold GenFull.unmarshalJSONFull GenFull.unmarshalYAMLFull
-  rw [hj, hy, nativeTry_none g _ hnj, nativeTry_none g _ hny]
+  rw [hj, hy, nativeTry_none g _ _ hnj, nativeTry_none g _ _ hny]
   exact ⟨rfl, rfl⟩
 
 /-! ## the pinned algorithms -/
